@@ -95,9 +95,13 @@ def gen_build_spec(g, spec, box, kinds, est_size=0.6):
             b = g.randint(a + 3, nres - 1)
             span = (b - a) * est_size
             tol = round(g.uniform(0.1, 0.35), 3)
-            dmax = min(0.6 * span, 0.45 * min(box) - tol)
+            # mostly below half the box edge; sometimes beyond it (reachable only along a box diagonal: the pair is
+            # then nearer through a box face than inside the cell for many placements)
+            cap = 0.45 if g.random() < 0.65 else 0.62
+            dmax = min(0.6 * span, cap * min(box) - tol)
             d = round(g.uniform(min(max(0.3, 0.2 * span), dmax), dmax), 3)
-            items.append({"kind": "dist", "a": a, "b": b, "d": d, "tol": tol})
+            # the pair may be listed with the residue that is grown later first
+            items.append({"kind": "dist", "a": a, "b": b, "d": d, "tol": tol, "reversed": g.random() < 0.3})
             if b + 2 <= nres - 1 and g.random() < 0.6:
                 # a second, longer restraint from the same reference residue (listed after the shorter one)
                 b2 = g.randint(b + 2, nres - 1)
@@ -155,7 +159,10 @@ def render(blocks, templates=None, volumes=None, bending=None):
                            + f" {it['angle']}")
             elif k == "dist":
                 out.append("[ distance_restraints ]")
-                out.append(f"{it['a']} {it['b']} {it['d']} {it['tol']}")
+                if it.get("reversed"):
+                    out.append(f"{it['b']} {it['a']} {it['d']} {it['tol']}")
+                else:
+                    out.append(f"{it['a']} {it['b']} {it['d']} {it['tol']}")
             elif k == "pers":
                 out.append("[ persistence_length ]")
                 out.append(f"{it['model']} {it['lp']} {it['start']} {it['stop']}")
